@@ -46,7 +46,7 @@ def main(argv=None):
         i, n = (int(x) for x in args.shard.split("/"))
         ctx = core.Ctx(pid, args.tier, args.seed, shard=i, nshards=n)
         if sys.flags.optimize:
-            ctx.count("shards_under_python_O")
+            ctx.count("shards_under_python_O" if sys.flags.optimize == 1 else "shards_under_python_OO")
         core.guarded(ctx, mod.run, ctx)
         with open(args.partial, "w") as f:
             json.dump(core.jsonable(ctx.dump_partial()), f)
@@ -83,7 +83,14 @@ def main(argv=None):
             part = os.path.join(tmp, f"part{i}.json")
             # configuration coverage: the last shard of every sharded check runs under python -O (assert statements in the
             # library are compiled away there; the harness itself contains none)
-            flags = ["-B", "-O"] if (i == nshards - 1 and getattr(mod, "OPTIMIZED_SHARD", True)) else ["-B"]
+            # the last shard of every check runs under `python -O` (asserts stripped), the first of a check with three or
+            # more shards under `python -OO` (docstrings gone as well: __doc__ is None everywhere)
+            flags = ["-B"]
+            if getattr(mod, "OPTIMIZED_SHARD", True):
+                if i == nshards - 1:
+                    flags = ["-B", "-O"]
+                elif i == 0 and nshards >= 3:
+                    flags = ["-B", "-OO"]
             cmd = [sys.executable] + flags + [os.path.join(HERE, "main.py"), pid, "--tier", args.tier,
                    "--seed", str(args.seed), "--shard", f"{i}/{nshards}", "--partial", part]
             procs.append((i, part, subprocess.Popen(cmd, env=child_env(), stdout=subprocess.PIPE, stderr=subprocess.STDOUT, text=True)))
